@@ -26,16 +26,19 @@ def run(ctx):
     g = SchemaGen(rng, depth=2)
     for _ in range(12 if ctx.tier == "quick" else 150):
         s = g.root()
-        if rng.random() < 0.5:
-            s["$id"] = "http://example.com/gen"
+        if rng.random() < 0.7:
+            # ids in the shapes they take in the wild (draft-04 trailing '#', trailing '/', urn, relative, with query and fragment)
+            s["$id"] = rng.choice(["http://example.com/gen", "http://example.com/gen#", "http://example.com/gen/", "urn:example:gen", "gen.json", "http://example.com/Gen?x#frag"])
         schemas.append(s)
+    schemas.append(dict(SPECIAL[0], **{"$id": "http://example.com/schemas/thing#"}))
     combos = list(itertools.product([False, True], repeat=5))
     if ctx.tier == "quick":
         combos = [c for i, c in enumerate(combos) if i % 3 == 0] + [combos[-1]]
     runs, meta = [], []
     for si, sc in enumerate(schemas):
         idv = sc.get("$id", "")
-        base_argv = ["-p", "pkg", "--schema-output", "%s=-" % idv] if idv else ["-p", "pkg"]
+        # every option keyed by the schema id: the id must be read the same from every spelling
+        base_argv = (["-p", "dflt", "--schema-package", "%s=example.com/mapped" % idv, "--schema-output", "%s=-" % idv, "--schema-root-type", "%s=SJson" % idv] if idv else ["-p", "pkg"])
         for ci, (lid, ldef, tl, bs, ldep) in enumerate(combos):
             doc = respell(sc, legacy_id=lid, legacy_defs=ldef, type_list=tl, bool_schema=bs, legacy_deps=ldep)
             runs.append(Run("r%d_%d" % (si, ci), {"in/s.json": json.dumps(doc)}, base_argv + ["in/s.json"]))
